@@ -396,6 +396,13 @@ def added_items(node):
         a = strip(c["args"][0])
         if isinstance(a, dict) and a.get("k") == "array":
             out += [norm(x) for x in a["es"]]
+    # `[a, b].iter().collect()` / `[a, b].into_iter().collect()`: a literal collected into the set
+    for c in find_all(node, lambda z: z.get("k") == "mcall" and z.get("name") == "collect"):
+        r = strip(c.get("recv"))
+        while isinstance(r, dict) and r.get("k") == "mcall" and r.get("name") in ("iter", "into_iter", "copied", "cloned"):
+            r = strip(r.get("recv"))
+        if isinstance(r, dict) and r.get("k") == "array":
+            out += [norm(x) for x in r["es"]]
     return out
 
 
@@ -403,7 +410,7 @@ def trust_rules(fb, ctx):
     # default trust = {authorizer, authority}
     db = fb.body(O + "::TrustedOrigins::default")
     dh = fb.hir_of(db)
-    ins = sorted(estr(c["args"][0]) for c in mcalls(dh["body"], r"origin::Origin::insert$"))
+    ins = sorted(estr(c["args"][0]) for c in mcalls(dh["body"], r"origin::Origin::insert$")) or sorted(added_items(dh["body"]))
     ctx.check(ins in (["0", "usize::MAX"], ["0", "MAX"]), "TRUST", "default trust = {authority (0), authorizer (usize::MAX)}", "TRUST|default", f"TrustedOrigins::default inserts {ins}", f"{db['file']}:{db['line']}")
     fb_ = fb.body(O + "::TrustedOrigins::from_scopes")
     fh = fb.hir_of(fb_)
